@@ -41,6 +41,90 @@ def apply_edit(sources, edits):
     return out
 
 
+def apply_unified_diff(sources, diff_text):
+    """Apply a git unified diff to the in-memory sources. -> new dict, or None when a hunk does not match
+    (the tree has moved on: the seeded change is stale)."""
+    import re
+    out = dict(sources)
+    cur = None
+    hunks = {}
+    dlines = diff_text.split('\n')
+    if dlines and dlines[-1] == '':
+        dlines.pop()
+    for line in dlines:
+        if line.startswith('diff --git') or line.startswith('index ') or line.startswith('--- '):
+            if line.startswith('diff --git'):
+                cur = None
+            continue
+        if line.startswith('\\'):
+            continue
+        if line.startswith('+++ b/'):
+            cur = line[6:].strip()
+            hunks[cur] = []
+        elif line.startswith('@@') and cur is not None:
+            m = re.match(r'@@ -(\d+)(?:,(\d+))? \+(\d+)(?:,(\d+))? @@', line)
+            hunks[cur].append([int(m.group(1)), []])
+        elif cur is not None and hunks.get(cur) and (line[:1] in (' ', '+', '-')) and not line.startswith('+++') and not line.startswith('---'):
+            hunks[cur][-1][1].append(line)
+        elif cur is not None and hunks.get(cur) and line == '':
+            hunks[cur][-1][1].append(' ')
+    for rel, hs in hunks.items():
+        if rel not in out:
+            return None
+        lines = out[rel].split('\n')
+        offset = 0
+        for start, body in hs:
+            old = [l[1:] for l in body if l[:1] in (' ', '-')]
+            new = [l[1:] for l in body if l[:1] in (' ', '+')]
+            # strip a trailing artificial blank context line
+            while old and new and old[-1] == '' and new[-1] == '' and (start - 1 + offset + len(old)) > len(lines):
+                old.pop()
+                new.pop()
+            pos = start - 1 + offset
+            if lines[pos:pos + len(old)] != old:
+                # search nearby
+                found = None
+                for d in range(-40, 41):
+                    if pos + d >= 0 and lines[pos + d:pos + d + len(old)] == old:
+                        found = pos + d
+                        break
+                if found is None:
+                    return None
+                pos = found
+            lines[pos:pos + len(old)] = new
+            offset += len(new) - len(old)
+        out[rel] = '\n'.join(lines)
+        try:
+            compile(out[rel], rel, 'exec', dont_inherit=True)
+        except SyntaxError:
+            return None
+    return out
+
+
+def seeded_variants(base):
+    """the independently produced seeded changes under /verif/seeded as additional kill variants"""
+    root = os.path.join(os.path.dirname(os.path.dirname(os.path.abspath(__file__))), 'seeded')
+    out = []
+    if not os.path.isdir(root):
+        return out
+    for d in sorted(os.listdir(root)):
+        pf = os.path.join(root, d, 'patch.diff')
+        mf = os.path.join(root, d, 'meta.json')
+        if not os.path.exists(pf):
+            continue
+        import json
+        prop = d[:3]
+        try:
+            with open(mf) as fh:
+                prop = json.load(fh).get('property', prop)
+        except Exception:
+            pass
+        with open(pf) as fh:
+            src = apply_unified_diff(base, fh.read())
+        out.append(('seeded-' + d, src, {prop}))
+    return out
+
+
 def run_variant(prop, sources):
     from .__main__ import run_property
     clear_cache()
@@ -49,46 +133,73 @@ def run_variant(prop, sources):
     return ctx, err
 
 
+def _eval_variant(args):
+    """worker: (kind, vid, prop, sources, base_ids) -> (kind, vid, status, reported, error)"""
+    kind, vid, prop, src, base_ids = args
+    import warnings
+    warnings.simplefilter('ignore')
+    sys.setrecursionlimit(10000)
+    try:
+        c, err = run_variant(prop, src)
+    except AnalysisError as e:
+        return kind, vid, 'error', [], str(e)
+    new = [f for f in c.findings if f.ident not in base_ids]
+    return kind, vid, ('found' if new else ('error' if err else 'none')), sorted(set(f.rule + ' ' + f.key for f in new))[:4], (err or '')[:200]
+
+
 def run_for_property(prop, ctx0, verbose=False, jobs=None):
     """Kill variants labelled with `prop` must be reported by prop's check; silence variants must
     leave prop's check silent. Returns coverage extras for the evidence."""
     base = ctx0.repo.sources
     base_ids = set(f.ident for f in ctx0.findings)      # findings of the tree itself (e.g. known findings)
-    killed, missed, stale = [], [], []
     t0 = time.time()
+    tasks, stale = [], []
     for vid, edits, props, note in KILL:
         if prop not in props:
             continue
         src = apply_edit(base, edits)
         if src is None:
             stale.append(vid)
-            continue
-        c, err = run_variant(prop, src)
-        c.findings = [f for f in c.findings if f.ident not in base_ids]
-        # an ANALYSIS-ERROR on a broken variant is accepted as "not silently passed" but recorded separately
-        if c.findings:
-            killed.append({'variant': vid, 'reported': sorted(set(f.rule for f in c.findings))[:4]})
-        elif err:
-            killed.append({'variant': vid, 'reported': ['ANALYSIS-ERROR (undecided, not a pass)']})
         else:
-            missed.append(vid)
-        if verbose:
-            print('  kill %-40s %s' % (vid, 'KILLED ' + ','.join(sorted(set(f.rule for f in c.findings))[:3]) if c.findings
-                                       else ('ERROR ' + err.split('\n')[0][:80] if err else 'MISSED')))
-    loud, quiet = [], []
+            tasks.append(('kill', vid, prop, src, base_ids))
+    for vid, src, props in seeded_variants(base):
+        if prop not in props:
+            continue
+        if src is None:
+            stale.append(vid)
+        else:
+            tasks.append(('kill', vid, prop, src, base_ids))
     for vid, edits, note in SILENT:
         src = apply_edit(base, edits)
         if src is None:
             stale.append(vid)
-            continue
-        c, err = run_variant(prop, src)
-        c.findings = [f for f in c.findings if f.ident not in base_ids]
-        if c.findings or err:
-            loud.append({'variant': vid, 'reported': [f.rule + ' ' + f.key for f in c.findings][:3], 'error': (err or '')[:200]})
         else:
-            quiet.append(vid)
+            tasks.append(('silent', vid, prop, src, base_ids))
+    jobs = jobs or min(16, os.cpu_count() or 1, max(1, len(tasks)))
+    if jobs > 1 and len(tasks) > 3:
+        import multiprocessing
+        ctxm = multiprocessing.get_context('fork')
+        with ctxm.Pool(jobs) as pool:
+            results = pool.map(_eval_variant, tasks, chunksize=1)
+    else:
+        results = [_eval_variant(t) for t in tasks]
+    killed, missed, loud, quiet = [], [], [], []
+    for kind, vid, status, reported, err in results:
+        if kind == 'kill':
+            if status == 'found':
+                killed.append({'variant': vid, 'reported': reported})
+            elif status == 'error':
+                # an ANALYSIS-ERROR on a broken variant is "not silently passed" but recorded as such
+                killed.append({'variant': vid, 'reported': ['ANALYSIS-ERROR (undecided, not a pass): ' + err[:80]]})
+            else:
+                missed.append(vid)
+        else:
+            if status == 'none':
+                quiet.append(vid)
+            else:
+                loud.append({'variant': vid, 'reported': reported, 'error': err})
         if verbose:
-            print('  silent %-38s %s' % (vid, 'quiet' if not (c.findings or err) else 'LOUD ' + str([f.rule for f in c.findings][:3]) + (err or '')[:100]))
+            print('  %-6s %-40s %s' % (kind, vid, {'found': 'REPORTED ' + '; '.join(reported)[:80], 'error': 'ERROR ' + err[:80], 'none': 'silent'}[status]))
     clear_cache()
     extra = {
         'selftest_kill': {'killed': len(killed), 'missed': missed, 'total': len(killed) + len(missed), 'samples': killed[:12]},
